@@ -159,7 +159,12 @@ def runVariant (O : Oracles) (j : Json) : Except String Json := do
     | some "nested" => pure Scope.nested
     | some "enclosing" => pure Scope.enclosing
     | _ => pure Scope.module
-  let c : ClassSp := { future, fields, scope }
+  let required ← match optField j "required" with
+    | none => pure none
+    | some r => do
+      let xs ← (← r.getArr?).toList.mapM (fun x => x.getStr?)
+      pure (some xs)
+  let c : ClassSp := { future, fields, scope, required }
   let perField := fields.map fun fs =>
     Json.mkObj [("name", Json.str fs.name),
                 ("res", fieldResToJson (elabFieldAt scope O tm future fs)),
